@@ -18,15 +18,37 @@ def cfgs_with_san(tier, inc):
     return out
 
 
+def cfgs_scalar_sets(tier, inc):
+    """default configurations + the scalar instruction-set ladders (X86 bsr/bsf, LZCNT, BMI, POPCNT) at -O1 and -O2, both compilers"""
+    import run
+    out = run.default_configs(tier)
+    for m in ([], ["X86"], ["POPCNT"], ["LZCNT"], ["BMI"], ["BMI2"], ["POPCNT", "LZCNT", "BMI", "BMI2"]):
+        out.append(C.Config(m, cxx="g++", std="c++11", opt="-O2"))
+        out.append(C.Config(m, cxx="clang++", std="c++17", opt="-O2"))
+        out.append(C.Config(m, cxx="g++", std="c++11", opt="-O1"))
+    seen, res = set(), []
+    for c in out:
+        if c.name not in seen:
+            seen.add(c.name); res.append(c)
+    return res
+
+
 PROPS = {
     "C01": {"id": "C01", "source": "c01.cpp", "files": INT_VEC_FILES, "min_configs": {"quick": 8, "thorough": 30},
             "configs": cfgs_with_san, "ub_is_violation": True, "digest_binding": True},
     "C04": {"id": "C04", "source": "c04.cpp", "files": INT_VEC_FILES + SCALAR_FILES[:8], "min_configs": {"quick": 8, "thorough": 30},
             "configs": cfgs_with_san, "ub_is_violation": True},
+    "C06": {"id": "C06", "source": "c06.cpp", "files": INT_VEC_FILES + SCALAR_FILES[:8] + ["include/avel/impl/Constants.hpp"], "min_configs": {"quick": 8, "thorough": 30},
+            "configs": cfgs_scalar_sets},
     "C02": {"id": "C02", "source": "c02.cpp", "files": INT_VEC_FILES + FLT_VEC_FILES, "min_configs": {"quick": 8, "thorough": 30}, "digest_binding": True},
 }
 
 MANIFEST_TEXT = {
+    "C06": {
+        "technique": "property-based testing: exhaustive 8/16-bit (quick) and 32-bit (thorough) element values, structured 64-bit patterns + rapidcheck, naive bit-loop oracle, constant-operand vs run-time differential, per build configuration and scalar instruction set",
+        "level": "Generated-input search over every element value (8/16-bit exhaustive; 32-bit exhaustive in thorough; 64-bit single/two-bit/mask patterns, neighbours, complements + random) for each of the 11 bit functions a type provides (SFINAE probe), vector lanes and scalar overloads, in every configuration of the arm cover plus the scalar ladders {none,X86,POPCNT,LZCNT,BMI,BMI2} x {g++,clang++} x {-O1,-O2}; oracle = naive bit loops; relations popcount(x)+popcount(~x)==bits, byteswap involution, countl_zero+bit_width==bits; constant-operand phase makes latent UB observable as a wrong value.",
+        "note": "Trusted: the bit-loop oracle, host CPU, compilers. Signed bit_floor/bit_ceil of negative lanes are documented undefined and not compared. A function a type does not provide is skipped here and is C19's business.",
+    },
     "C04": {
         "technique": "property-based testing: enumerated values x every amount 0..bits / rotation amounts (all 8-bit values quick, all 16-bit thorough) + rapidcheck, bit-level shift/rotate oracle and metamorphic relations, per build configuration",
         "level": "Generated-input search over lane values x amounts for 25 operation forms (bitwise, shifts by scalar / per-lane vector / compile-time amount, rotations by scalar / per-lane / compile-time amount incl. negative and beyond-width amounts, scalar rotl/rotr) on every integer vector type and configuration; per-lane forms carry a different amount in every lane with all amounts visiting all lanes; oracle = shifts on the unsigned image with explicit full-width and sign-fill cases; relations rotl(rotr(x,s),s)==x, (x<<k)>>k==x&lowmask, x<<bits==0; UBSan trap mode on the width-1/scalar forms ('is defined' for 0..bits).",
